@@ -225,6 +225,9 @@ pub enum FaultKind {
     Garbage { to: usize, kind: u8 },
     DropMux { ep: usize },
     Hold { from: usize, steps: u64 },
+    /// the connection task future is dropped mid-flight (its JoinSet is dropped / it is aborted)
+    /// while the Multiplexor handle and the streams live on
+    AbortTask { ep: usize },
 }
 #[derive(Serialize, Deserialize, Clone, Debug)]
 pub struct Fault {
@@ -876,16 +879,21 @@ async fn run_async(plan: Plan, sched: Sched, record: bool) -> DuoRun {
     // ---- endpoints
     let muxes: Rc<RefCell<[Option<Rc<Mux>>; 2]>> = Rc::new(RefCell::new([None, None]));
     let cancels = [Cancel::default(), Cancel::default()];
+    let task_cancels = [Cancel::default(), Cancel::default()];
     for me in 0..2 {
         let cfg = &plan.eps[me];
         let rng = ScriptRng { vals: Arc::new(Mutex::new(cfg.ids.iter().copied().collect())), base: ((me as u32) + 1) << 28, ctr: 0 };
         let (m, t) = Multiplexor::new_detailed::<_, SimInstant>(SimWs { link: link.clone(), me }, cfg.options(), rng);
         let m = Rc::new(m);
-        let (led2, seq2, weak, cancel, late) = (led.clone(), seq.clone(), Rc::downgrade(&m), cancels[me].clone(), plan.late_ops);
+        let (led2, seq2, weak, cancel, late, tcancel) = (led.clone(), seq.clone(), Rc::downgrade(&m), cancels[me].clone(), plan.late_ops, task_cancels[me].clone());
         sim.spawn(&format!("conn{me}"), if me == 0 { CLS_CONN0 } else { CLS_CONN1 }, async move {
-            let r = t.into_task().await;
+            // `None`: the task future was dropped before it finished (aborted)
+            let r = tcancel.run(t.into_task()).await;
             let now = seq2.tick();
-            led2.borrow_mut().task_end[me] = Some((now, format!("{r:?}")));
+            led2.borrow_mut().task_end[me] = Some((now, match &r {
+                Some(r) => format!("{r:?}"),
+                None => "Aborted".to_string(),
+            }));
             if !late {
                 return;
             }
@@ -1237,6 +1245,14 @@ async fn run_async(plan: Plan, sched: Sched, record: bool) -> DuoRun {
             FaultKind::Hold { from, steps } => {
                 w.faults.push((f.at, FaultAct::Hold { from: (*from).min(1), on: true }, false));
                 w.faults.push((f.at + steps, FaultAct::Hold { from: (*from).min(1), on: false }, false));
+            }
+            FaultKind::AbortTask { ep } => {
+                let ep = (*ep).min(1);
+                let tc = task_cancels[ep].clone();
+                w.customs.push((f.at, Box::new(move || {
+                    tc.cancel();
+                    format!("abort-task:{ep}")
+                }), false));
             }
             FaultKind::DropMux { ep } => {
                 let ep = (*ep).min(1);
